@@ -95,7 +95,7 @@ def tlc(scratch, module, cfg_text, name=None, workers=None, extra=(), timeout=18
     m = re.search(r"depth of the complete state graph search is (\d+)", out)
     if m:
         res["depth"] = int(m.group(1))
-    m = re.search(r"Invariant (\S+) is violated", out) or re.search(r"Temporal properties were violated", out) \
+    m = re.search(r"Invariant (\S+) is violated", out) or re.search(r"Temporal propert(?:ies were|y \S+ was) violated", out) \
         or re.search(r"Action property (\S+) is violated", out) or re.search(r"Deadlock reached", out) \
         or re.search(r"Assumption .* is false", out) or re.search(r"The postcondition .* false|Postcondition .* false", out)
     if m:
@@ -217,7 +217,7 @@ def _panic_site(out):
     return msg, site
 
 
-def run_supervised(binary, test, env, scratch, tag, total, prop, timeout=3000, max_crashes=60):
+def run_supervised(binary, test, env, scratch, tag, total, prop, timeout=3000, max_crashes=300):
     """Run a driver whose process can be killed by a panic of go-perun inside a goroutine: the driver writes its
     progress (case index TAB description) before every case; after a crash the case in flight is recorded as a
     violation (panic) and the driver is restarted behind it. Returns (list of driver results, crash violations)."""
